@@ -159,7 +159,13 @@ class Vec(object):
     def boom(self):
         raise LookupError("boom")
 
+    def pair(self):
+        return Point(len(self.xs), "p")          # an instance of a tuple SUBCLASS: not a plain value, travels by reference
+
     exposed_scale = scale
+
+
+Point = collections.namedtuple("Point", ["first", "n"])
 
 
 class Vec2(Vec):
@@ -207,10 +213,10 @@ def gen3():
 def make_world():
     return [[1, 2, 3], {"a": 1, 2: "b"}, {1, 2}, bytearray(b"abc"), collections.deque([1, 2]), io.BytesIO(b"hello world"),
             Vec(1, 2), Vec(0), iter([10, 20, 30]), gen3(), list(range(12)), Vec2(5, -5, 0), NodeA(), NodeB(), iter(range(40)),
-            Weird("a"), iter(range(2600))]
+            Weird("a"), iter(range(2600)), Point(3, "x")]
 
 
-KINDS = ["list", "dict", "set", "bytearray", "deque", "bytesio", "vec", "vec", "iter", "gen", "list", "vec", "node", "node", "iter", "weird", "iter"]
+KINDS = ["list", "dict", "set", "bytearray", "deque", "bytesio", "vec", "vec", "iter", "gen", "list", "vec", "node", "node", "iter", "weird", "iter", "ntuple"]
 
 
 def snapshot(o, depth=0, seen=None):
@@ -247,6 +253,8 @@ def snapshot(o, depth=0, seen=None):
             return ["vec", snapshot(d.get("xs", "<deleted>"), depth + 1, seen), snapshot(d.get("log", "<deleted>"), depth + 1, seen),
                     snapshot(d.get("_temp", "<deleted>"), depth + 1, seen),
                     sorted([k, snapshot(v, depth + 1, seen)] for k, v in d.items() if k not in ("xs", "log", "_temp"))]
+        if isinstance(o, tuple):
+            return ["tuple-subclass", t.__name__] + [snapshot(x, depth + 1, seen) for x in o]
         if isinstance(o, BaseException):
             return ["exc", t.__name__, repr(o.args)]
         return ["opaque", t.__name__]
@@ -289,11 +297,12 @@ METHODS = {
     "deque": [("append", 1), ("appendleft", 1), ("pop", 0), ("popleft", 0), ("rotate", 1), ("clear", 0), ("count", 1)],
     "bytesio": [("read", 0), ("read", 1), ("write", 1), ("seek", 1), ("tell", 0), ("getvalue", 0), ("close", 0), ("readline", 0),
                 ("truncate", 1)],
-    "vec": [("scale", 0), ("scale", 0), ("scale", 1), ("scale", 2), ("boom", 0), ("missing_method", 0)], "node": [("missing_method", 0)],
+    "vec": [("scale", 0), ("scale", 0), ("scale", 1), ("scale", 2), ("boom", 0), ("missing_method", 0), ("pair", 0)], "node": [("missing_method", 0)],
+    "ntuple": [("_replace", 0), ("_asdict", 0), ("count", 1), ("index", 1), ("missing_method", 0)],
     "iter": [], "gen": [("send", 1), ("close", 0)], "str": [("upper", 0), ("split", 0), ("find", 1)],
 }
 ATTRS = ["xs", "temp", "_temp", "log", "exposed_tag", "missing", "closed", "maxlen", "real", "__doc__", "newattr", "reading", "reading",
-         "value", "extra"]
+         "value", "extra", "first", "n", "_fields"]
 
 
 def apply_step(step, objs, val, world_new):
@@ -452,6 +461,8 @@ def check(case, rec):
                 twin_before = twins[stp[1] % len(twins)]
                 if cfg != "classic" and stp[0] in ("class", "isinstance") and type(twin_before) in (NodeA, NodeB):
                     continue     # the class is not importable at the requester: __class__ is then an attribute read the policy denies
+                if stp[0] == "binop" and stp[4] and stp[3][0] == "v" and isinstance(twin_before, tuple):
+                    continue     # `(1,) + x`, `"%s" % x`: a builtin left operand inspects the concrete type of x; no proxy can pass for a tuple there
                 try:
                     tw = ("ok", apply_step(stp, twins, vals.build, "twin"))
                 except Exception as ex:
